@@ -1,4 +1,5 @@
 import MimicProofs.Params
+import MimicProofs.ParsersCode
 /-!
 # C17 — Query attributes reach the application exactly as sent
 -/
@@ -108,5 +109,47 @@ example : (Item.mk { code := 253, unsigned := false, name := [107] } (.str ['v']
   · intro h; simp [Item.isNull] at h
   · intro _ rest
     exact readValue_str _ _ [118] ['v'] rest (by decide) (by decide) (by decide)
+
+/-! ### the code itself (`Mimic.Extracted.ParsersCode`, regenerated from `/repo` by `harness/pytrans2.py`) -/
+
+/-- **`parse_com_query` of `packets.py`, translated, is the model's `parseQuery`** (attribute count, parameter block,
+    Python dict construction, statement text) for every payload and both settings of CLIENT_QUERY_ATTRIBUTES -/
+theorem parse_com_query_is_code (E : Mimic.Py.Env (List Char)) (caps cs : Nat) (valid : List Nat)
+    (hv : ∀ n, E.validType n = valid.contains n) (hE : E.decode cs [] = some E.empty) (data : Bytes) (hr : data.length < 2 ^ 63) :
+    (Mimic.Extracted.ParsersCode.parse_com_query E caps cs data).map (fun q => (q.sql, q.query_attrs))
+      = (parseQuery valid (E.decode cs) (Mimic.Py.hasBit caps 27) data).map (fun x => (x.1, x.2.map MimicProofs.ParsersCode.kvOut)) :=
+  MimicProofs.ParsersCode.parse_com_query_eq E caps cs valid hv hE data hr
+
+/-- **code-level round trip of query attributes on COM_QUERY**: what the translated `parse_com_query` hands to the
+    application is exactly the SQL text and exactly the (name, value) pairs the client sent -/
+theorem code_attrs_roundtrip_query (E : Mimic.Py.Env (List Char)) (caps cs : Nat) (valid : List Nat)
+    (hv : ∀ n, E.validType n = valid.contains n) (hE : E.decode cs [] = some E.empty) (hq : Mimic.Py.hasBit caps 27 = true)
+    (items : List Item) (names : List (List Char)) (sqlBytes : Bytes) (sql : List Char) (hne : items ≠ [])
+    (hcount : items.length < 2 ^ 64) (hok : ∀ i ∈ items, i.ok valid (E.decode cs) true)
+    (hnames : Mimic.Results.optAll (items.map (fun i => E.decode cs i.t.name)) = some names)
+    (hsql : E.decode cs sqlBytes = some sql)
+    (hlen : (encLen items.length ++ encLen 1 ++ encBlock true items ++ sqlBytes).length < 2 ^ 63) :
+    (Mimic.Extracted.ParsersCode.parse_com_query E caps cs (encLen items.length ++ encLen 1 ++ encBlock true items ++ sqlBytes)).map
+        (fun q => (q.sql, q.query_attrs))
+      = some (sql, (dictOf (names.zip (items.map (fun i => i.v)))).map MimicProofs.ParsersCode.kvOut) := by
+  rw [MimicProofs.ParsersCode.parse_com_query_eq E caps cs valid hv hE _ hlen, hq,
+    attrs_roundtrip_query valid (E.decode cs) items names sqlBytes sql hne hcount hok hnames hsql]
+  rfl
+
+/-- **code level: no attributes without the capability** — for every payload the SQL text is the whole payload -/
+theorem code_no_attrs_without_capability (E : Mimic.Py.Env (List Char)) (caps cs : Nat) (valid : List Nat)
+    (hv : ∀ n, E.validType n = valid.contains n) (hE : E.decode cs [] = some E.empty) (hq : Mimic.Py.hasBit caps 27 = false)
+    (payload : Bytes) (hr : payload.length < 2 ^ 63) :
+    (Mimic.Extracted.ParsersCode.parse_com_query E caps cs payload).map (fun q => (q.sql, q.query_attrs))
+      = (E.decode cs payload).map (fun sql => (sql, [])) := by
+  rw [MimicProofs.ParsersCode.parse_com_query_eq E caps cs valid hv hE _ hr, hq, no_attrs_without_capability]
+  cases E.decode cs payload <;> rfl
+
+/-- non-vacuity at code level: a COM_QUERY payload with one attribute `k = 7` (LONGLONG) in front of `select 1`, run
+    through the translated `parse_com_query` -/
+example : (Mimic.Extracted.ParsersCode.parse_com_query MimicProofs.ParsersCode.asciiEnv (2 ^ 27) 0
+      ([1, 1, 0, 1, 8, 0, 1, 107, 7, 0, 0, 0, 0, 0, 0, 0] ++ "select 1".toList.map (fun c => UInt8.ofNat c.toNat))).map
+        (fun q => (q.sql, q.query_attrs.map (fun kv => (kv.1, MimicProofs.ParsersCode.toPVal kv.2))))
+    = some ("select 1".toList, [(some ['k'], .int 7)]) := by decide +kernel
 
 end MimicProps.C17
